@@ -8,7 +8,7 @@ from typing import TYPE_CHECKING, Any, cast
 
 from .keyvault.crypto import default_eccrypto
 from .keyvault.keys import Key
-from .messaging.interfaces.udp.endpoint import Address, UDPv4Address, UDPv6Address
+from .messaging.interfaces.udp.endpoint import Address, DomainAddress, UDPv4Address, UDPv6Address
 
 if TYPE_CHECKING:
     from collections.abc import Mapping
@@ -69,7 +69,7 @@ class Peer:
     A public key that has additional information attached to it (like an IP address, measured RTT, etc.).
     """
 
-    INTERFACE_ORDER = [UDPv6Address, UDPv4Address, tuple]
+    INTERFACE_ORDER = [UDPv6Address, UDPv4Address, tuple, DomainAddress]
 
     def __init__(self, key: Key | bytes, address: Address | None = None, intro: bool = True) -> None:
         """
